@@ -1,8 +1,10 @@
 // C19 — invalid inputs are refused with an error, not undefined behaviour.
 //
-// Everything that touches the real code runs in a forked child (vh::isolated) of the
-// ASan/UBSan, assertion-enabled build, so an abort or a sanitizer report is observed as a
-// result ("abort"/"sanitizer") instead of killing the harness.  Items are grouped per fork;
+// Everything that touches the real code runs in a forked child (vh::isolated) of an
+// ASan/UBSan build, so an abort or a sanitizer report is observed as a result
+// ("abort"/"sanitizer") instead of killing the harness.  tools/props/C19.py builds and runs
+// this harness twice: against the assertion-enabled library (-UNDEBUG) and against the
+// assertions-off one (-DNDEBUG); the expectations below hold for both.  Items are grouped per fork;
 // when a group dies its items are re-run one per fork.
 //
 //   A  effort:   every constructor of the seven *Parameters records for every effort in
